@@ -88,10 +88,13 @@ class Layout:
         sib.segs = [(names[k], sn, so, ln, sr) for k, (sid, sn, so, ln, sr) in enumerate(sib.segs)]
         return sib
 
-    def graph(self, links="complete"):
+    def graph(self, links="complete", sn_last=False):
         g = rgfa.Graph()
         for k, (sid, sn, so, ln, sr) in enumerate(self.segs):
-            g.add_seg(sid, _seq(ln, k + 17 * len(self.segs)), [("LN", "i", str(ln)), ("SN", "Z", sn), ("SO", "i", str(so)), ("SR", "i", str(sr))])
+            tags = [("LN", "i", str(ln)), ("SN", "Z", sn), ("SO", "i", str(so)), ("SR", "i", str(sr))]
+            if sn_last:  # tag order is free in GFA; a Z tag at the very end of the line sits next to the newline
+                tags = [tags[2], tags[0], tags[3], tags[1]]
+            g.add_seg(sid, _seq(ln, k + 17 * len(self.segs)), tags)
         if links == "complete":
             sides = [(n, s) for n in self.ids() for s in (0, 1)]
             for (a, sa), (b, sb) in itertools.combinations_with_replacement(sides, 2):
